@@ -105,10 +105,21 @@ theorem C16_time_never_passes_the_stop_deadline (w w' : World) (t x : Nat) (b : 
     deadline without one. -/
 theorem C18_expect_returns_what_its_handler_matched (w w' : World) (x : Nat) (got : Option EId)
     (h : step w (.expectEnd x got) = some w') :
-    ∃ b key k d g, w.waiter x = .expecting b key k d g ∧ g = got ∧ (got.isSome ∨ (d ≠ 0 ∧ d ≤ w.now)) := by
+    ∃ b key k d g dead, w.waiter x = .expecting b key k d g dead ∧ (got.isSome → g = got) ∧ (got.isSome ∨ ∃ t, d = some t ∧ t ≤ w.now) := by
   obtain ⟨hg, _⟩ := step_some h
   simp [guard, checks, Checks.ok] at hg
   cases hw : w.waiter x <;> simp [hw] at hg
-  exact ⟨_, _, _, _, _, rfl, hg.1, hg.2⟩
+  rename_i b key k d g dead
+  refine ⟨b, key, k, d, g, dead, rfl, ?_, ?_⟩
+  · intro hs
+    cases got with
+    | none => simp at hs
+    | some e => simpa using hg
+  · cases got with
+    | some e => exact Or.inl rfl
+    | none =>
+      cases d with
+      | none => simp at hg
+      | some t => exact Or.inr ⟨t, rfl, by simpa using hg⟩
 
 end Bubus.Thm
